@@ -24,6 +24,7 @@ import (
 
 	v1 "github.com/fatedier/frp/pkg/config/v1"
 	"github.com/fatedier/frp/pkg/util/tcpmux"
+	"github.com/fatedier/frp/pkg/util/verifhook"
 	"github.com/fatedier/frp/pkg/util/vhost"
 )
 
@@ -58,6 +59,7 @@ func (tmgc *TCPMuxGroupCtl) Listen(
 		tmgc.groups[group] = tcpMuxGroup
 	}
 	tmgc.mu.Unlock()
+	verifhook.At("tcpmuxgroup.listen.lookedup", group, routeConfig.Domain)
 
 	switch v1.TCPMultiplexerType(multiplexer) {
 	case v1.TCPMultiplexerHTTPConnect:
